@@ -1,4 +1,5 @@
 open Model
+type string = Stdlib.String.t   (* Coq's own string type is extracted too (CLite): keep OCaml's here *)
 open Util
 
 (* container models (Vector.v) instantiated with the sources translated in Gen/Facts.v *)
